@@ -451,7 +451,33 @@ func runC10(c *Check) {
 			a := ArgTerm(n, 0)
 			return a != nil && a.Contains(func(x *Term) bool { return x.Op == "field" && x.Name == "queue" })
 		})
-		if len(recvs) != 1 || len(gotOne) == 0 || len(apps) == 0 {
+		rests := g.Select(func(n *Node) bool { return strings.HasSuffix(CallName(n), "query.Results).Rest") })
+		if len(recvs) == 0 && len(rests) == 1 && len(apps) > 0 {
+			// the other way to read the stream: everything at once. Rest stops at the first entry
+			// it cannot read and reports it: only its nil edge says "these are all the entries".
+			var okExits []*Node
+			for _, x := range g.Exits {
+				if g.ExitClass(x) != rcA {
+					okExits = append(okExits, x)
+				}
+			}
+			isRest := func(t *Term) bool { return t.IsCall("query.Results).Rest") }
+			c.Decide("C10-R7", "Load ⟂ consumes-the-whole-stream", fn, p.InstrPos(rests[0].In), "the reload returns successfully only through the nil edge of the read of the whole stream",
+				"the reload reads the stored entries at once and can report success although the read failed part-way: the entries behind the unreadable one are invisible, their keys are not counted when the key state is restored (new batches overwrite them), and they reappear out of order after a later restart", g,
+				g.PathAvoiding(rests, nodeSet(okExits), ErrNilEdge(isRest)))
+			decoded := g.Select(ErrNilEdge(func(t *Term) bool { return t.IsCall("proto.Unmarshal") }))
+			if len(decoded) == 0 {
+				c.Unk("C10-R7", "Load ⟂ decoded-entry-is-queued", fn, "", "anchor lost: decode-success edge")
+			} else {
+				hdr := loopHeaderOf(decoded[0].In.Block())
+				var head *Node
+				if hdr != nil {
+					head = g.headNode(decoded[0].Ctx, hdr)
+				}
+				c.Decide("C10-R7", "Load ⟂ decoded-entry-is-queued", fn, p.InstrPos(decoded[0].In), "every entry that decoded is appended before the next one is looked at",
+					"an entry that decoded can be passed over without being queued", g, g.PathAvoiding(decoded, orPred(func(n *Node) bool { return head != nil && n == head }, nodeSet(okExits)), nodeSet(apps)))
+			}
+		} else if len(recvs) != 1 || len(gotOne) == 0 || len(apps) == 0 {
 			c.Unk("C10-R7", "Load ⟂ anchors", fn, "", fmt.Sprintf("anchor lost: %d stream receives, %d element edges, %d appends to the queue", len(recvs), len(gotOne), len(apps)))
 		} else {
 			var okExits []*Node
